@@ -37,6 +37,20 @@ func TestMain(m *testing.M) {
 	R.Assume("members agree on the pinset (one recording in-memory consensus); all peers of P are cluster members; the monitor is the injectable clus.Mon over the real metrics.Store (plus a smaller configuration with the real pubsubmon.Monitor)")
 	R.Assume("metric values: numeric values 2,10,30 (ties when two peers share a state); one non-numeric value per section (variants in a separate section); unhealthy metrics carry the best-ranked value so that using them would be visible")
 	R.Assume("the exclusion list is only reachable through re-pinning (PeerRemove / ping alert); it always holds exactly one peer, which is a current holder")
+	R.Note("oracle_silent_on", []string{
+		"which holders are dropped when more than max are healthy",
+		"unhealthy (or excluded) current holders that stay listed or disappear",
+		"how many peers between min and max are added, and the order of the list",
+		"the order in which several healthy priority peers are taken",
+		"ties between equal metric values",
+		"BlockAllocate with factor -1 (returns the peers with a valid ping metric by design)",
+		"factor pairs that are neither both positive nor (-1,-1): outcome recorded only",
+		"re-pin with options identical to the stored pin (allocation skipped by design): only 'no duplicates / nothing unhealthy added / healthy holders kept / at most max healthy' are judged",
+	})
+	R.Note("observations", []string{
+		"api.Pin.ProtoMarshal does not persist UserAllocations: re-pinning paths (PeerRemove, ping alert) have no priority list, and a re-pin with identical options plus a priority list is not recognised as identical",
+		"the same-options shortcut accepts a pin whose stored holders are fewer than min healthy (outcome class shortcut:kept-with-fewer-than-min-healthy)",
+	})
 	ev.Main(m.Run, R)
 }
 
